@@ -453,6 +453,17 @@ async fn apply_workspace_reload(
     register_files_watch(context).await;
 }
 
+/// Verification hook (compiled only with `--cfg emmyluals_emmylua_analyzer_rust_verif`): the private reload entry
+/// point as an awaitable fn, so that an external driver can run it next to the text-sync handlers. Adds no behaviour.
+#[cfg(emmyluals_emmylua_analyzer_rust_verif)]
+pub async fn verif_apply_workspace_reload(
+    context: ServerContextSnapshot,
+    workspace_folders: Vec<WorkspaceFolder>,
+    emmyrc: Arc<Emmyrc>,
+) {
+    apply_workspace_reload(context, workspace_folders, emmyrc).await
+}
+
 async fn sync_reloaded_open_files(
     context: ServerContextSnapshot,
     mut applied_snapshot: OpenFilesSnapshot,
